@@ -104,7 +104,11 @@ def explicit_seqs(ctx, seqs, tag):
     vals = vlib.coq_eval_plain(shards, IMPORTS, tag)
     out = []
     for i, (s, im) in enumerate(zip(seqs, impl)):
-        out.append((s, im, vals[i % nsh][i // nsh]))
+        codes = list(vals[i % nsh][i // nsh])
+        # a panic on sizes the property quantifies over (1..256 bits, any length) is not the slot count of the layout rule
+        if im[0] == 0 and s and all(0 < x <= 256 for x in s) and 2 not in codes:
+            codes.append(2)
+        out.append((s, im, codes))
     return out
 
 
@@ -227,11 +231,16 @@ def type_table(rep, ctx):
 def random_seqs(ctx, n):
     rng = random.Random(ctx.seed * 1000003 + 10)
     out = []
-    kinds = {'byte_granular': 0, 'any_1_256': 0, 'small_mix': 0, 'boundary_and_overflow': 0}
+    kinds = {'byte_granular': 0, 'any_1_256': 0, 'small_mix': 0, 'boundary_and_overflow': 0, 'long_one_per_slot': 0}
     for k in range(n):
         ln = rng.choice([0, 1, 2, 3, 5, 6, 7, 8, 13, 21, 34, 55, 100, 200, 300])
         r = rng.random()
-        if r < 0.35:
+        if k % 40 == 7:
+            # more than 256 slots: every member fills (most of) a slot of its own
+            s = [rng.choice([256, 256, 248, 160, 136]) for _ in range(rng.choice([255, 256, 257, 300, 520, 700]))] + \
+                [rng.choice([8, 256, 8]) for _ in range(rng.choice([0, 3]))]
+            kinds['long_one_per_slot'] += 1
+        elif r < 0.35:
             s = [rng.choice(SIZES) for _ in range(ln)]
             kinds['byte_granular'] += 1
         elif r < 0.6:
